@@ -5,3 +5,4 @@ package customize
 
 //@ func Manager.GetRelatedObjects(rm, parent) (r, err)
 //@   requires rm != nil && parent != nil
+//@   writes-assumed fresh, rm
